@@ -29,8 +29,11 @@ def sterm(mask):
     return "s%02d" % mask
 
 
-def universe_docs(D, seed=0, decorate=True):
-    """Model documents of U(D)."""
+def universe_docs(D, seed=0, decorate=True, mix=False):
+    """Model documents of U(D).  mix=True: the frequency of a term in a document
+    depends on the document AND the term (the default pattern, 1 + (i + seed) % 3,
+    gives every term of a document the same frequency, so the weights of two
+    posting lists rise and fall together)."""
     docs = []
     nlex = len(LEX)
     for i in range(D):
@@ -39,7 +42,10 @@ def universe_docs(D, seed=0, decorate=True):
             if mask & (1 << i):
                 if decorate:
                     # frequency pattern 1..3, varies by (doc, term, seed)
-                    f = 1 + ((i * 7 + mask * 3 + seed) % 3)
+                    if mix:
+                        f = 1 + ((i * i * 5 + (i + 1) * mask + (mask >> 2) * 3 + seed) % 4)
+                    else:
+                        f = 1 + ((i * 7 + mask * 3 + seed) % 3)
                 else:
                     f = 1
                 toks.extend([sterm(mask)] * f)
